@@ -138,6 +138,39 @@ pub fn rflags(f: Flags, no_opt: bool) -> regress::Flags {
 
 /// Compile from code points. Ok(Ok(re)) / Ok(Err(msg)) / panic / fuel.
 pub fn compile(cps: &[u32], f: Flags, no_opt: bool) -> Guarded<Result<regress::Regex, String>> {
+    // Half of the programs that can be (valid scalar values, optimizer on) go through the string
+    // entry points with the flags spelled as JavaScript letters -- Regex::with_flags(&str, &str),
+    // Regex::new / FromStr without flags -- so that flag parsing is on the observed path as well;
+    // the letters are written in a pattern-dependent order, with a duplicate and an unsupported one.
+    if !no_opt && !f.n && cps.len() % 2 == 0 {
+        if let Some(text) = cps.iter().map(|&c| char::from_u32(c)).collect::<Option<String>>() {
+            let mut letters: Vec<char> = Vec::new();
+            for (on, l) in [(f.i, 'i'), (f.m, 'm'), (f.s, 's'), (f.u, 'u'), (f.v, 'v')] {
+                if on {
+                    letters.push(l);
+                }
+            }
+            if cps.len() % 4 == 0 {
+                letters.reverse();
+            }
+            if let Some(&first) = letters.first() {
+                if cps.len() % 8 == 0 {
+                    letters.push(first);
+                    letters.push('y');
+                }
+            }
+            let fs: String = letters.into_iter().collect();
+            return guarded(DEFAULT_FUEL, || {
+                if fs.is_empty() && text.len() % 3 == 0 {
+                    text.parse::<regress::Regex>().map_err(|e| e.text)
+                } else if fs.is_empty() {
+                    regress::Regex::new(&text).map_err(|e| e.text)
+                } else {
+                    regress::Regex::with_flags(&text, fs.as_str()).map_err(|e| e.text)
+                }
+            });
+        }
+    }
     guarded(DEFAULT_FUEL, || regress::Regex::from_unicode(cps.iter().copied(), rflags(f, no_opt)).map_err(|e| e.text))
 }
 
